@@ -66,6 +66,21 @@ theorem parallel_eq_sequential {α β : Type} (items : List α) (f : α → P2.P
   · rw [hpre] at hstop ⊢
     exact (P2.ParStage.seqRun_take_stopped more (items.map f) _ hstop).symm
 
+/-- C06.2 (the schedule always ends): every step of the stage uses up a bounded resource, so no run of
+dispatches and arrivals is longer than `2 * items.length`, whatever the schedule -/
+theorem parallel_terminates {α β : Type} (items : List α) (f : α → P2.ParStage.Out β) (workers : Nat)
+    (s s' : P2.ParStage.St β) (st : P2.ParStage.Step items f workers s s') :
+    s'.measure items.length < s.measure items.length :=
+  P2.ParStage.step_measure st
+
+/-- C06.2 (no schedule gets stuck): a reachable state in which a result is still held by a worker or a
+source item has not been handed out can always move -/
+theorem parallel_no_deadlock {α β : Type} (items : List α) (f : α → P2.ParStage.Out β) (workers : Nat)
+    (hw : 0 < workers) (s : P2.ParStage.St β) (h : P2.ParStage.Reach items f workers s)
+    (hnot : ¬ (s.inflight = [] ∧ s.next = items.length)) :
+    ∃ s', P2.ParStage.Step items f workers s s' :=
+  P2.ParStage.progress hw s hnot (P2.ParStage.reach_J h).bound
+
 section
 open P2.ParStage
 /-- non-vacuity: three items on three workers, the results arrive in the order 2, 0, 1; the state is
